@@ -360,6 +360,10 @@ class Interp:
         if isinstance(s, ast.AugAssign):
             cur = self.ev(_load(s.target), env)
             v = self.binop(s.op, cur, self.ev(s.value, env))
+            if isinstance(s.target, ast.Name) and isinstance(cur, np.ndarray) and isinstance(v, np.ndarray) and v.shape == cur.shape \
+                    and cur.dtype == object:
+                cur[...] = v        # an augmented assignment to an array updates it in place (aliases see the change)
+                return
             self.assign(s.target, v, env)
             return
         if isinstance(s, ast.If):
@@ -515,6 +519,8 @@ class Interp:
             return v
         if isinstance(v, (str, slice)) or v is Ellipsis or v is None:
             return v
+        if isinstance(v, tuple) and v == ("np", "newaxis"):
+            return None
         if isinstance(v, np.ndarray) and v.dtype.kind in "iu":
             return v
         if isinstance(v, np.ndarray) and v.dtype == object and v.size and all(
@@ -850,6 +856,8 @@ class Interp:
                 return tuple(base.shape)
             if e.attr == "ndim":
                 return int(base.ndim)
+            if e.attr == "dtype":
+                return ("dtype", "array")
             if e.attr == "T":
                 return base.T
             if e.attr in ("dot", "copy", "flatten", "ravel", "astype", "sum", "reshape", "tolist", "transpose", "clip", "prod"):
